@@ -11,7 +11,9 @@ import (
 	"strings"
 
 	"github.com/bufbuild/buf/private/bufpkg/bufcas"
+	"github.com/bufbuild/buf/private/bufpkg/bufparse"
 	"github.com/bufbuild/buf/private/pkg/storage"
+	"github.com/google/uuid"
 )
 
 // ---- C08 (grpI): identifiers are prefixed vi / refI ----
@@ -320,7 +322,11 @@ func VerifLemma_C08D_Sensitivity() {
 	objsB := append([]viObj(nil), objs...)
 	depsB := append([]Digest(nil), deps...)
 	wantEqual := false
-	switch verifNondetChoice(5) {
+	mode := verifParam("MODE") // 0..4: that perturbation only; 5: every perturbation
+	if mode >= 5 {
+		mode = verifNondetChoice(5)
+	}
+	switch mode {
 	case 0:
 		p := viNondetPath(3)
 		for _, o := range objs {
@@ -392,6 +398,8 @@ type viModuleKey struct {
 }
 
 func (k *viModuleKey) Digest() (Digest, error) { return k.digest, nil }
+func (k *viModuleKey) FullName() bufparse.FullName { return nil }
+func (k *viModuleKey) CommitID() uuid.UUID         { return uuid.Nil }
 
 type viObjectData struct {
 	name string
